@@ -79,7 +79,7 @@ def parse_dump(lines):
 def split_ops(toks):
     """group the token lines of a case by leading op line: returns list of (head tokens, following detail lines)"""
     heads = {"SOLUTION", "ILP", "NUM", "GETVAL", "PRINTNUM", "LOAD", "PUT", "CAT", "TRYREAD", "READ", "READP", "WRITE", "P", "TRYBASIS", "SOLVE", "OPT",
-             "BASIS", "LOADBASIS", "WRITEBASIS", "READBASIS", "READLOADBASIS", "BOPT", "PRINTSOL", "FREE", "NOPROB", "UNKNOWN", "EDIT"}
+             "PC", "BASIS", "LOADBASIS", "WRITEBASIS", "READBASIS", "READLOADBASIS", "BOPT", "PRINTSOL", "FREE", "NOPROB", "UNKNOWN", "EDIT"}
     out = []
     for t in toks:
         if t[0] in heads:
@@ -253,6 +253,33 @@ def slp_block(P, objname=None, intmarker=None):
         out.append("SC %s %s %s %s %d" % (enc(n), qs(o), qs(l), qs(u), 1 if it else 0))
     for (n, s, r, g, ent) in P["rows"]:
         out.append("SR %s %s %s %s %d %s" % (enc(n), s, qs(r), qs(g), len(ent), " ".join("%s %s" % (enc(c), qs(v)) for c, v in ent)))
+    return "\n".join(out)
+
+
+def parse_dumpc(lines):
+    """token lines of one DUMPC -> column-wise problem dict(name, max, objname, intmarker, rangeval, cols=[(name, obj, lo, up, int, [(row, coef)])],
+    rows=[(name, sense, rhs, range)]); None if 'PC ERR'"""
+    if not lines or lines[0][0] != "PC" or lines[0][1] == "ERR":
+        return None
+    h = lines[0]
+    C = dict(max=h[1] == "MAX", name=dec(h[4]) if h[4] != "-" else None, objname=dec(h[5]) if h[5] != "-" else None,
+             intmarker=h[6] == "1", rangeval=h[7] == "1", cols=[], rows=[])
+    for t in lines[1:]:
+        if t[0] == "CC":
+            k = int(t[6])
+            C["cols"].append((dec(t[1]), qv(t[2]), qv(t[3]), qv(t[4]), t[5] == "1", [(dec(t[7 + 2 * i]), qv(t[8 + 2 * i])) for i in range(k)]))
+        elif t[0] == "RR":
+            C["rows"].append((dec(t[1]), t[2], qv(t[3]), qv(t[4])))
+    return C
+
+
+def mlp_block(C, objname):
+    out = ["MLP %d %s %s %d %d %d %d" % (1 if C["max"] else 0, enc(C["name"] or ""), enc(objname), 1 if C["intmarker"] else 0, 1 if C["rangeval"] else 0,
+                                         len(C["cols"]), len(C["rows"]))]
+    for (n, o, l, u, it, ent) in C["cols"]:
+        out.append("MC %s %s %s %s %d %d %s" % (enc(n), qs(o), qs(l), qs(u), 1 if it else 0, len(ent), " ".join("%s %s" % (enc(r), qs(v)) for r, v in ent)))
+    for (n, s_, r, g) in C["rows"]:
+        out.append("MR %s %s %s %s" % (enc(n), s_, qs(r), qs(g)))
     return "\n".join(out)
 
 
